@@ -1,1 +1,2 @@
 import MirosModel.Drive.Hsm
+import MirosModel.Drive.Queue
